@@ -337,20 +337,25 @@ def run(index, rep, tier):
         f = index.function(TMS + ".treeness")
         loops = [l for l in walk_no_nested(f.node) if isinstance(l, ast.For)]
         leafifs = [i for l in loops for i in ast.walk(l) if isinstance(i, ast.If) and "is_leaf" in norm(i.test)]
-        if len(leafifs) != 1:
-            raise AnalysisError("R17.6: treeness: leaf test not recognised")
-        key = norm(leafifs[0].test)
-        dl, di = Decision(facts={key: True}), Decision(facts={key: False})
-        dl.run([leafifs[0]])
-        di.run([leafifs[0]])
-        if len(dl.augs) != 1 or len(di.augs) != 1:
-            raise AnalysisError("R17.6: treeness: accumulators not recognised")
-        ext, inte = dl.augs[0][0], di.augs[0][0]
-        rets = [n for n in walk_no_nested(f.node) if isinstance(n, ast.Return) and isinstance(n.value, ast.BinOp) and isinstance(n.value.op, ast.Div)]
-        ok = bool(rets) and norm(rets[0].value.left) == inte and isinstance(rets[0].value.right, ast.BinOp) and isinstance(rets[0].value.right.op, ast.Add) \
-            and sorted([norm(rets[0].value.right.left), norm(rets[0].value.right.right)]) == sorted([ext, inte]) and ext != inte
-        rep.check(ok, "R17.6", f.qualname, "treeness = %s" % (norm(rets[0].value) if rets else None), fn_where(f, rets[0] if rets else None), "treeness returns <non-leaf lengths> / (<leaf lengths> + <non-leaf lengths>)",
-                  "treeness returns `%s` where `%s` accumulates the leaf edges and `%s` the internal ones: the statistic is the proportion of tree length on INTERNAL branches" % (norm(rets[0].value) if rets else None, ext, inte))
+        # numerator and denominator range over the same edges: Tree.length() counts the seed node's own edge, the internal-edge sum does not
+        tl_calls = [c for c in calls_in(f.node) if call_name(c) == "length" and isinstance(c.func, ast.Attribute) and norm(c.func.value) in f.params]
+        rep.check(not tl_calls, "R17.6", f.qualname, "denominator taken from Tree.length()", fn_where(f, tl_calls[0] if tl_calls else None), "treeness sums numerator and denominator over the same edges",
+                  "treeness divides by `%s`: Tree.length() includes the length of the seed node's own edge, which the sum over internal edges leaves out, so for a tree whose root carries a length - ((A:1,B:1):2,C:3):7 - the statistic is 2/14 instead of 2/7" % (norm(tl_calls[0])[:40] if tl_calls else ""))
+        if not tl_calls:
+            if len(leafifs) != 1:
+                raise AnalysisError("R17.6: treeness: leaf test not recognised")
+            key = norm(leafifs[0].test)
+            dl, di = Decision(facts={key: True}), Decision(facts={key: False})
+            dl.run([leafifs[0]])
+            di.run([leafifs[0]])
+            if len(dl.augs) != 1 or len(di.augs) != 1:
+                raise AnalysisError("R17.6: treeness: accumulators not recognised")
+            ext, inte = dl.augs[0][0], di.augs[0][0]
+            rets = [n for n in walk_no_nested(f.node) if isinstance(n, ast.Return) and isinstance(n.value, ast.BinOp) and isinstance(n.value.op, ast.Div)]
+            ok = bool(rets) and norm(rets[0].value.left) == inte and isinstance(rets[0].value.right, ast.BinOp) and isinstance(rets[0].value.right.op, ast.Add) \
+                and sorted([norm(rets[0].value.right.left), norm(rets[0].value.right.right)]) == sorted([ext, inte]) and ext != inte
+            rep.check(ok, "R17.6", f.qualname, "treeness = %s" % (norm(rets[0].value) if rets else None), fn_where(f, rets[0] if rets else None), "treeness returns <non-leaf lengths> / (<leaf lengths> + <non-leaf lengths>)",
+                      "treeness returns `%s` where `%s` accumulates the leaf edges and `%s` the internal ones: the statistic is the proportion of tree length on INTERNAL branches" % (norm(rets[0].value) if rets else None, ext, inte))
 
     # ---- R17.10 an edge is crossed on a half-open interval
     with rep.section("R17.10"):
